@@ -14,7 +14,8 @@ THEOREMS = ["C14_whole_segment", "C14_rewrite_frame", "C14_roundtrip", "C14_hist
             "C14_spec_locale", "C14_valid_decidable", "C14_valid_nonvacuous", "C14_old_refuted",
             "C14_first_match_frame", "C14_first_match_roundtrip", "C14_first_match_history", "C14_first_match_spec",
             "C14_unique_is_first", "C14_first_match_example", "C14_explicit_prefix_frame", "C14_explicit_prefix_history",
-            "C14_explicit_prefix_spec", "C14_explicit_prefix_example"]
+            "C14_explicit_prefix_spec", "C14_explicit_prefix_example",
+            "C14_prefix_before_params", "C14_match_locale_exact", "C14_match_bare", "C14_match_spec", "C14_swapped_refuted"]
 PROPS = "theories/Props/C14.v"
 REGISTRY = {
     "level": "proof",
@@ -336,7 +337,55 @@ def fixed_trees(n):
     t2 = [[root], [root, about], [root, user], [root, user, ("P", "id")], [root, user, ("P", "id"), pl("edit")],
           [root, pl("files"), ("W", "rest")], [root, pl("opt"), ("O", "a"), ("O", "b"), about], [root, pl("en-USA"), pl("french")]]
     t3 = [[root], [root, about, ("P", "x")]]
-    return [t01, t01, t2, t3]
+    # tables whose first segment is a param / optional param / splat, alone and next to static routes (m_tree.rs 4..10)
+    t4 = [[root, ("P", "slug")]]
+    t5 = [[root], [root, about], [root, ("P", "slug")]]
+    t6 = [[root, ("O", "a")]]
+    t7 = [[root, pl("counter")], [root, ("O", "a"), pl("x")]]
+    t8 = [[root, ("W", "any")]]
+    t9 = [[root], [root, pl("counter")], [root, about], [root, ("W", "any")]]
+    t10 = [[root, pl("counter")], [root, ("P", "a"), ("P", "b")]]
+    return [t01, t01, t2, t3, t4, t5, t6, t7, t8, t9, t10]
+
+
+TREE_KIND = ["static-only", "static-only", "static-only", "static-only", "param-alone", "param+static", "opt-alone", "opt+static",
+             "splat-alone", "splat+static", "param2+static"]
+FIRST_CLASSES = ["exact-default", "exact-nondefault", "exact-nested", "prefixed", "one-short", "glued", "other", "none"]
+
+
+def gen_match_path(rng, atab, names, dflt, klass):
+    """a path for match_nested whose first segment is of the given class, followed by an instance of a route (or junk)"""
+    n = len(names)
+    nested = [i for i, x in enumerate(names) if any(y != x and x.startswith(y) for y in names)]
+    l = {"exact-default": dflt, "exact-nested": rng.choice(nested)}.get(klass)
+    if l is None:
+        l = rng.choice([i for i in range(n) if i != dflt])
+    c = rng.random()
+    if c < 0.7:
+        segs = render(instantiate(rng, rng.choice(atab), names), l if klass.startswith("exact") else dflt)
+    elif c < 0.85:
+        segs = []
+    else:
+        segs = [rng.choice(["zzz", "q", "counter", "x"]) for _ in range(rng.choice([1, 2]))]
+    nm = names[l]
+    if klass.startswith("exact"):
+        psegs = [nm] + segs
+    elif klass == "prefixed":
+        w = nm + rng.choice(["a", "x", "nch", "-XX", "A"])
+        psegs = [w if w not in names else nm + "zz"] + segs
+    elif klass == "one-short":
+        w = nm[:-1]
+        psegs = [w if w and w not in names else "q"] + segs
+    elif klass == "glued":
+        psegs = [nm + (segs[0] if segs else "counter")] + segs[1:]
+    elif klass == "other":
+        psegs = segs if segs and segs[0] not in names else ["zzz"] + segs
+    else:
+        psegs = []
+    path = "/" + "/".join(psegs)
+    if psegs and rng.random() < 0.1:
+        path += "/"
+    return psegs, path
 
 
 def run_harness(exe, mode, lines, timeout=600):
@@ -485,28 +534,15 @@ def run(ctx):
     lcases += ecases_l
     ncases += ecases_n
 
-    # natively built I18nRoute trees
+    # natively built I18nRoute trees: every tree kind x every class of first path segment
     tlines, tplan = [], []
     for ti, atab in enumerate(trees):
-        for _ in range(40 if quick else 300):
-            r = rng.choice(atab)
-            inst = instantiate(rng, r, enum_names)
-            l = rng.randrange(en)
-            segs = render(inst, l)
-            c = rng.random()
-            first = enum_names[l]
-            if c < 0.25:
-                first = first + rng.choice(["x", "nch", "-US", "counter", segs[0] if segs else "q"])   # not a whole segment
-            elif c < 0.35:
-                first = None
-            psegs = ([first] if first is not None else []) + segs
-            glue = "/"
-            if c < 0.25 and rng.random() < 0.5 and segs:
-                # "/frcounter": the locale name glued to the next segment
-                psegs = [enum_names[l] + segs[0]] + segs[1:]
-            path = "/" + glue.join(psegs)
-            tlines.append(US.join([str(ti), path]))
-            tplan.append({"tree": ti, "names": enum_names, "psegs": psegs, "path": path})
+        for klass in FIRST_CLASSES:
+            for _ in range(6 if quick else 40):
+                psegs, path = gen_match_path(rng, atab, enum_names, enum_dflt, klass)
+                tlines.append(US.join([str(ti), path]))
+                tplan.append({"tree": ti, "tree_kind": TREE_KIND[ti], "first_class": klass, "names": enum_names, "psegs": psegs,
+                              "path": path})
     touts = run_harness(exe, "tree", tlines)
     theads = [x for x in touts if x.startswith("TREE ")]
     touts = touts[len(theads):]
@@ -556,23 +592,45 @@ def run(ctx):
             L(S(x) for x in enum_names), enum_dflt, coq_atab(trees[ti]), coq_tabs(tabs),
             L(L(seg(k, v) for k, v in r) for r in routes)))
 
+    def mres(r):
+        if r == "none":
+            return "None"
+        matched, remaining, params = r.split(FS)
+        ps = L("(%s, %s)" % (S(kv.split("=", 1)[0]), S(kv.split("=", 1)[1])) for kv in params.split(",") if kv)
+        return "(Some (%s, %s))" % (S(remaining), ps)
+
     def mcase_term(c):
         o = c["impl"]
-        if o == "none":
+        if o in ("PANIC", "MISMATCH"):
+            return None
+        loc, ri, rb, per = o.split(US)
+        first = c["path"][1:].split("/")[0]
+        if ri == "none":
             impl = "None"
-        elif o in ("PANIC", "MISMATCH"):
-            impl = "(Some (Some 9999%nat))"
         else:
-            loc = o.split(US)[0]
-            impl = "(Some None)" if loc == "-" else "(Some (Some %s%%nat))" % loc
-        return "(mk_mcase %s %s %s)" % (L(S(x) for x in c["names"]), L(S(x) for x in c["psegs"]), impl)
+            matched = ri.split(FS)[0]
+            impl = "(Some (%s, %s, %s))" % ("None" if loc == "-" else "Some %s%%nat" % loc, S(matched), mres(ri)[6:-1])
+        c["locale"] = None if loc == "-" else int(loc)
+        c["outcome"] = "no-match" if ri == "none" else ("bare" if loc == "-" else "locale")
+        return "(mk_m2case %s (Some %s) %s %s %s)" % (L(S(x) for x in c["names"]), S(first), L(mres(x) for x in per.split(RS)),
+                                                      mres(rb), impl)
 
     lcodes = core.coq_eval(ctx, "c14l", PRE, [lcase_term(c) for c in lcases], "check_l")
     ncodes = core.coq_eval(ctx, "c14n", PRE, [ncase_term(c) for c in ncases], "check_n")
     fcodes = core.coq_eval(ctx, "c14f", PRE, [fcase_term(c) for c in fcases], "check_f")
     hcodes = core.coq_eval(ctx, "c14h", PRE, [hcase_term(c) for c in hcases], "check_h")
     tcodes = core.coq_eval(ctx, "c14t", PRE, tcases, "check_t")
-    mcodes = core.coq_eval(ctx, "c14m", PRE, [mcase_term(c) for c in tplan], "check_m")
+    mterms = [mcase_term(c) for c in tplan]
+    mpanic = [c for c, t in zip(tplan, mterms) if t is None]
+    tplan = [c for c, t in zip(tplan, mterms) if t is not None]
+    mcodes = core.coq_eval(ctx, "c14m", PRE, [t for t in mterms if t is not None], "check_m2")
+    mpair = {}
+    for c, code in zip(tplan, mcodes):
+        key = "%s x %s" % (c["tree_kind"], c["first_class"])
+        m = mpair.setdefault(key, {"cases": 0, "locale": 0, "bare": 0, "no-match": 0})
+        m["cases"] += 1
+        m[c["outcome"]] += 1
+    mzero = ["%s x %s" % (k, f) for k in sorted(set(TREE_KIND)) for f in FIRST_CLASSES if ("%s x %s" % (k, f)) not in mpair]
 
     # structured stream: cross-check the Python side's reading of the domain and of the overlap class with Coq, then the
     # pairwise table over the cases Coq confirms to be inside the domain
@@ -608,6 +666,8 @@ def run(ctx):
                 bad.append((what, c))
             elif code == 2:
                 disagree.append((what, c))
+    for c in mpanic:
+        disagree.append(("match_nested (harness PANIC/MISMATCH)", c))
     for i, code in enumerate(tcodes):
         if code != 0:
             disagree.append(("generate_routes/RouteSegments of tree %d" % i, {"names": enum_names, "tree": i, "head": theads[i]}))
@@ -615,7 +675,7 @@ def run(ctx):
     def view(what, c):
         v = {"function": what}
         for k in ("names", "dflt", "base", "bsegs", "psegs", "path", "search", "hash", "a", "b", "old", "ls", "by_path", "atab",
-                  "inst", "tabs", "new", "tree", "impl"):
+                  "inst", "tabs", "new", "tree", "tree_kind", "first_class", "impl"):
             if k in c:
                 v[k] = c[k]
         if what in ("get_new_path", "history") and "inst" in c:
@@ -642,7 +702,9 @@ def run(ctx):
                             "in the new locale's spelling (a path no route matches is kept) + same query and fragment",
             "history": "a URL in the history of switches differs from the one expected by first-match semantics "
                        "(in particular switching back does not restore the original URL although the image reads the same way)",
-            "match_nested": "match_nested reported a locale whose name is not the first segment of the path",
+            "match_nested": "spec_match is false: the locale reported by match_nested must be the first locale whose name is exactly the "
+                            "first path segment and under which the inner route tree matches the rest of the path; otherwise no "
+                            "locale and the whole path matched by the inner tree (oracle: leptos_router on the inner tree alone)",
         }.get(what, "")
         byf = {}
         for w, _ in bad:
@@ -709,6 +771,8 @@ def run(ctx):
         "input_distribution": hist, "declared_segment_kinds": kinds, "audit_problems": problems,
         "patched_build": bool(os.environ.get("VERIF_C14_PATCHED")),
         "pairwise_coverage": pair_report,
+        "match_nested_pairwise": {"dimensions": {"tree_kind": sorted(set(TREE_KIND)), "first_class": FIRST_CLASSES},
+                                  "cells": mpair, "zero_cells": mzero, "harness_panics": len(mpanic)},
         "roundtrip_hypothesis_on_structured_switches": roundtrip_hyp,
         "oracle_mismatches": len(oracle_mismatch),
     }, assumptions=[
